@@ -56,6 +56,14 @@ def run_case(run, drv, case, exp, want_full=True):
         content = parent if case["via_parent"] else root
         if not os.path.exists(content):
             content = parent
+        if case.get("via_symlink") and os.path.lexists(root) and not os.path.islink(root):
+            # the payload is reached through a symbolic link named like the torrent (a linked
+            # download directory): the verdicts are those of the bytes behind the link
+            store = os.path.join(os.path.dirname(parent), "store")
+            os.makedirs(store, exist_ok=True)
+            real = os.path.join(store, "Some.Other.Name")
+            os.rename(root, real)
+            os.symlink(real, root)
         try:
             result, stream = impl.recheck(mpath, content)
         except Exception as exc:
